@@ -207,7 +207,14 @@ let handle (x : sexp) : (string * string) list =
       let eff =
         if not go || spec then "n/a"
         else if ed = d then "same"
-        else if spec_valid_b s ed opn then (if spec_valid_b s pd opn then "explains:static-skip" else "explains:fragdef-dirs")
+        else if spec_valid_b s ed opn then
+          (if spec_valid_b s pd opn then "explains:static-skip"
+           (* the directives of fragment definitions are dissolved before validation.  The engine's
+              prevalidation list checks them for being defined, located and unique (repaired); what
+              it cannot see is the validity of their ARGUMENTS *)
+           else if List.exists (fun r -> r = R_dir_known || r = R_dir_location || r = R_dir_unique) (spec_report s pd opn)
+           then "fragdef-dirs-prevalidated"
+           else "explains:fragdef-dir-args")
         else "differs" in
       let ed = if not go || spec then d else ed in
       [("specfail", Printf.sprintf "accept_iff_valid (go=%s spec=%s rules=[%s] kind=%s op=%s stage=%s family=%s eff=%s erules=[%s])%s"
